@@ -534,3 +534,5 @@ MUTANTS = [
 ]
 
 RENAME_FUNCS = [(F, 'apply_sustain_control_changes')]
+
+EXPLANATION += (' Location-independent additions: RANK/rank-in-key (wherever (time, rank, obj) tuples are sorted), BRANCH/note-off-removes-one, ESC/quantized-definition presence-vs-value form; ranks written as numbers are read as the constants they fold to.')
